@@ -33,6 +33,17 @@ LABEL = {
 }
 
 
+def _faithful_sleep(w):
+    """cooperative `sleep`: yields to the scheduler; like time.sleep it rejects a negative duration"""
+
+    def csleep(d):
+        if d < 0:
+            raise ValueError("sleep length must be non-negative")
+        w.yield_(("sleep", None))
+
+    return csleep
+
+
 class Abort(BaseException):
     pass
 
@@ -137,7 +148,7 @@ class World:
         self._cn = iter(["IC", "EC", "C3", "C4"])
         mp.Lock = CLock
         mp.Condition = CCond
-        mp.sleep = lambda d: w.yield_(("sleep", None))
+        mp.sleep = _faithful_sleep(w)
 
         class Job:
             def __init__(j, pubs, k):
@@ -185,7 +196,7 @@ class World:
         finally:
             mp.Lock, mp.Condition, mp.sleep = self.saved
         # keep the patched names while the threads run (restored in close())
-        mp.sleep = lambda d: w.yield_(("sleep", None))
+        mp.sleep = _faithful_sleep(w)
         self.threads = [self._spawn(t, calls) for t, calls in enumerate(programs)]
 
     # -------------------------------------------------------------------------------------------
